@@ -89,6 +89,7 @@ int World::exec_dims(const Op &op) {
             if (variant == 3) { unit = "foo"; arg_class += ",non-si-unit"; }
             try { x.appendRangeDimension(t, label, unit); }
             catch (const std::exception &) { return 1; }
+            if (!std::is_sorted(t.begin(), t.end())) { fail("C13.sorted-positive", "appendRangeDimension accepted ticks that are not in ascending order"); return 0; }
             d.ticks = t; d.has_label = !label.empty(); d.label = label; d.has_unit = !unit.empty(); d.unit = unit;
         } else if (kind == 2) {
             std::vector<std::string> l; int n = r.range(0, 4);
@@ -177,6 +178,9 @@ int World::exec_dims(const Op &op) {
                     if (alias) { for (auto &v : tk) v = (double) (long) (v < 0 ? -v : v) + 0.0; std::sort(tk.begin(), tk.end()); if (variant == 1 && tk.size() > 1) { std::swap(tk[0], tk[tk.size() - 1]); sorted = std::is_sorted(tk.begin(), tk.end()); } }
                     if (variant == 1 && !sorted) arg_class += ",unsorted-ticks"; else if (variant == 2) arg_class += ",empty-ticks";
                     rd.ticks(tk);
+                    // whichever entry point: ticks that are not ascending must not be accepted (for an alias the stored-state check cannot
+                    // tell, because the array's own data may legitimately be unsorted)
+                    if (!std::is_sorted(tk.begin(), tk.end())) { fail("C13.sorted-positive", std::string("RangeDimension::ticks() accepted ticks that are not in ascending order") + (alias ? " (alias range dimension)" : "")); return 0; }
                     if (alias && have_model) {
                         // writing ticks through the alias writes the array itself
                         ArrModel &m = arr[id];
